@@ -412,6 +412,7 @@ def enc_of(eng, st, v):
     if not cases:
         raise Outside("stream_serialize of %s has no normal outcome" % root)
     e = enc_uf(eng, v)
+    eng.last_enc_conditions = [c for c, _d in cases]      # under which the real encoder returns normally (lemma RT1 assumes it)
     term = cases[-1][1]
     for cond, data in reversed(cases[:-1]):
         term = z3.If(eng.b(cond), data, term)
